@@ -342,23 +342,23 @@ def run(ctx, quick):
     pool.shutdown()
     states = sum(r.distinct for r in res.values())
     trans = sum(r.generated for r in res.values())
-    single, npat1 = pick_per_pattern(uniq(res["single"].exports), rnd, 1 if quick else 4)
+    single, npat1 = pick_per_pattern(uniq(res["single"].exports), rnd, 1 if quick else 3)
     if quick:
         rnd.shuffle(single)
         single = single[:90]
-    pair, npat2 = pick_guarded(uniq(res["pairq"].exports), rnd, 45 if quick else 400)
+    pair, npat2 = pick_guarded(uniq(res["pairq"].exports), rnd, 45 if quick else 350)
     if not quick:
-        pair2, npat2b = pick_guarded(uniq(res["pair"].exports), rnd, 900)
+        pair2, npat2b = pick_guarded(uniq(res["pair"].exports), rnd, 650)
         pair, npat2 = pair + pair2, npat2 + npat2b
     walk = uniq(res["walk"].exports)
     rnd.shuffle(walk)
-    walk = walk[:30 if quick else 400]
+    walk = walk[:30 if quick else 300]
     rich_all = uniq(res["rich"].exports)
     rnd.shuffle(rich_all)
     # populations in which every one of the nine categories pays come first (the whole pool is handed out)
     full = [e for e in rich_all if ncats(e) == 9]
     rest = [e for e in rich_all if ncats(e) < 9]
-    rich = full[:12 if quick else 80] + rest[:25 if quick else 300]
+    rich = full[:12 if quick else 80] + rest[:25 if quick else 220]
     if not full:
         raise vlib.CheckError("the rich family exported no population in which all nine categories pay (vacuous bounds)")
     cases = [("single", e) for e in single] + [("pair", e) for e in pair] + [("walk", e) for e in walk] + [("rich", e) for e in rich]
